@@ -752,7 +752,7 @@ func clip(s string, n int) string {
 	return s
 }
 
-var jsonMutNames = []string{"delete", "null", "wrong-type", "non-hex", "odd-hex", "array-null", "negative", "huge-number", "empty-object", "long-hex", "short-hex", "empty-string", "very-long-hex"}
+var jsonMutNames = []string{"delete", "null", "wrong-type", "non-hex", "odd-hex", "array-null", "negative", "huge-number", "empty-object", "long-hex", "short-hex", "empty-string", "very-long-hex", "fraction-9", "fraction-padded", "tiny-exp", "huge-exp", "neg-fraction"}
 
 // jsonPaths lists every path of a document in a deterministic order.
 func jsonPaths(v interface{}, prefix []string) [][]string {
@@ -899,6 +899,11 @@ func jsonMutate(doc interface{}, p []string, mk int) (interface{}, bool) {
 			return nil, false
 		}
 		set(cur.(string)+strings.Repeat("ab", 300), false)
+	case 13, 14, 15, 16, 17:
+		if !isNum {
+			return nil, false
+		}
+		set(json.RawMessage([]string{"0.123456789", "12.500000000", "1e-9", "1e400", "-0.00000001"}[mk-13]), false)
 	}
 	return root, true
 }
